@@ -49,6 +49,7 @@ Record InvA (s : st) : Prop := {
   a_pw : 1 <= sumc cw_postw (closers s) + sumf postw (fins s) + b2n (fin s) -> wgc s = 0;
   a_cw : 1 <= sumc cw_postcw (closers s) + sumf postcw (fins s) -> fin s = true;
   a_gf : sumc cw_badfin (closers s) = 0;
+  a_notif : length (notified s) <= attempts s;
   a_rf : match rp s with RForce (CFin _) _ | RForce (CRet _) _ => False | _ => True end
 }.
 
@@ -86,7 +87,7 @@ Ltac finA :=
 Lemma step_invA s c s' : step repaired s c = Some s' -> InvA s -> InvA s'.
 Proof.
   unfold step. destruct (panic s) eqn:Hp; [discriminate|].
-  intros H [I1 I2 I3 I4 I5 I6 I7 I8 I9 I10 I11 I12 I13 I14].
+  intros H [I1 I2 I3 I4 I5 I6 I7 I8 I9 I10 I11 I12 I13 I14 I15].
   destruct c.
   - (unfold send_step in H; dmatch H; inv H; constructor; cbn; auto). all: finA.
   - (unfold writer_step in H; dmatch H; inv H; constructor; cbn; auto). all: finA.
